@@ -1,6 +1,7 @@
 package zzharness
 
 import (
+	"io"
 	"context"
 	"fmt"
 	"reflect"
@@ -121,6 +122,9 @@ func fillMessage(m protoreflect.Message, r *rng, level int64, depth int, mutated
 				case 2:
 					return protoreflect.ValueOfBytes([]byte{0x81, 0xa1, 'n', 0x01}), true
 				}
+				if r.chance(1, 4) {
+					return protoreflect.ValueOfBytes([][]byte{{0x00}, {0xC7}, {0xC7, 0x00}, {0xC7, 0x00, 0xC1}}[r.intn(4)]), true
+				}
 				return protoreflect.ValueOfBytes(genPayload(int64(r.intn(40)), int64(r.intn(99)))), true
 			case protoreflect.BoolKind:
 				return protoreflect.ValueOfBool(r.chance(1, 2)), true
@@ -156,6 +160,13 @@ func fillMessage(m protoreflect.Message, r *rng, level int64, depth int, mutated
 					secs := []int64{0, 1, -5, 946684800 + int64(r.intn(100)), 32503680000}[r.intn(5)]
 					sub.Set(sub.Descriptor().Fields().ByName("seconds"), protoreflect.ValueOfInt64(secs))
 					return protoreflect.ValueOfMessage(sub), true
+				}
+				if strings.HasSuffix(string(fd.Message().FullName()), ".Cap") && r.chance(1, 2) {
+					// a well-formed cap (body-field filter, positive maximum): the cap-bearing code paths are only
+					// reached with one, whatever else in the request is malformed
+					p := "n"
+					cp := &hydrapb.Cap{MaxMatching: int32(1 + r.intn(3)), Filter: &hydrapb.FilterGroup{Filters: []*hydrapb.TreasureFilter{{BytesFieldPath: &p, Operator: hydrapb.Relational_EQUAL, CompareValue: &hydrapb.TreasureFilter_Int64Val{Int64Val: 1}}}}}
+					return protoreflect.ValueOfMessage(cp.ProtoReflect()), true
 				}
 				var sub protoreflect.Message
 				if fd.IsList() {
@@ -199,6 +210,7 @@ type rpcMethod struct {
 	fn     reflect.Value
 	req    reflect.Type
 	stream reflect.Type // nil for unary
+	bidi   bool
 }
 
 func gatewayMethods(gw any) []rpcMethod {
@@ -215,10 +227,36 @@ func gatewayMethods(gw any) []rpcMethod {
 			out = append(out, rpcMethod{name: m.Name, fn: v.Method(i), req: ft.In(2)})
 		case ft.NumIn() == 3 && ft.In(1).Implements(msgT) && ft.In(2).Kind() == reflect.Interface && ft.NumOut() == 1:
 			out = append(out, rpcMethod{name: m.Name, fn: v.Method(i), req: ft.In(1), stream: ft.In(2)})
+		case ft.NumIn() == 2 && ft.In(1).Kind() == reflect.Interface && ft.NumOut() == 1 && strings.Contains(ft.In(1).String(), "StreamingServer"):
+			// client- or bidi-streaming handler: the requests arrive through the stream
+			out = append(out, rpcMethod{name: m.Name, fn: v.Method(i), stream: ft.In(1), bidi: true})
 		}
 	}
 	sort.Slice(out, func(i, j int) bool { return out[i].name < out[j].name })
 	return out
+}
+
+// fakeBidiStream feeds generated requests to a client-/bidi-streaming handler and ends with io.EOF.
+type fakeBidiStream[Req any, Resp any] struct {
+	ctx  context.Context
+	reqs []*Req
+	n    int
+}
+
+func (f *fakeBidiStream[Req, Resp]) SetHeader(metadata.MD) error  { return nil }
+func (f *fakeBidiStream[Req, Resp]) SendHeader(metadata.MD) error { return nil }
+func (f *fakeBidiStream[Req, Resp]) SetTrailer(metadata.MD)       {}
+func (f *fakeBidiStream[Req, Resp]) Context() context.Context     { return f.ctx }
+func (f *fakeBidiStream[Req, Resp]) RecvMsg(m any) error          { return io.EOF }
+func (f *fakeBidiStream[Req, Resp]) SendMsg(m any) error          { f.n++; return nil }
+func (f *fakeBidiStream[Req, Resp]) Send(m *Resp) error           { f.n++; return nil }
+func (f *fakeBidiStream[Req, Resp]) Recv() (*Req, error) {
+	if len(f.reqs) == 0 {
+		return nil, io.EOF
+	}
+	r := f.reqs[0]
+	f.reqs = f.reqs[1:]
+	return r, nil
 }
 
 func newFakeStreamFor(t reflect.Type, ctx context.Context) (reflect.Value, bool) {
@@ -262,6 +300,13 @@ func runC26(t *testing.T, c Case) (res Result) {
 		if v = valid(0); v != nil {
 			return
 		}
+		// records with legal but awkward values in the swamps the generated requests address: byte values shorter
+		// than the 2-byte msgpack marker, the bare marker, and a msgpack body
+		for j, b := range [][]byte{{0x00}, {0xC7}, {0xC7, 0x00}, {0xC7, 0x00, 0x81, 0xa1, 'n', 0x01}} {
+			for _, sw := range []string{"verif/per/keep", "verif/per/other"} {
+				cl.set(sw, []*hydrapb.KeyValuePair{{Key: fmt.Sprintf("k%d", j), BytesVal: b}}, true, true)
+			}
+		}
 		methods := gatewayMethods(srv.gw)
 		for i, op := range c.Ops {
 			if cl.hung != "" || simrt.Aborted() {
@@ -274,17 +319,34 @@ func runC26(t *testing.T, c Case) (res Result) {
 				continue
 			}
 			m := methods[int(op.A[0])%len(methods)]
-			if m.stream != nil && (m.name == "DestroyBulk") {
-				continue
-			}
 			r := newRng(uint64(op.A[1]), m.name)
-			req := reflect.New(m.req.Elem())
+			var req reflect.Value
 			var mutated []string
-			fillMessage(req.Interface().(proto.Message).ProtoReflect(), r, op.A[2], 0, &mutated)
+			var bidi reflect.Value
+			if m.bidi {
+				if m.name != "DestroyBulk" {
+					continue // no fake for this stream type yet
+				}
+				st := &fakeBidiStream[hydrapb.DestroyBulkRequest, hydrapb.DestroyBulkResponse]{ctx: context.Background()}
+				for j := 1 + r.intn(2); j > 0; j-- {
+					q := &hydrapb.DestroyBulkRequest{}
+					fillMessage(q.ProtoReflect(), r, op.A[2], 0, &mutated)
+					st.reqs = append(st.reqs, q)
+				}
+				req = reflect.ValueOf(st.reqs[0])
+				bidi = reflect.ValueOf(st)
+			} else {
+				req = reflect.New(m.req.Elem())
+				fillMessage(req.Interface().(proto.Message).ProtoReflect(), r, op.A[2], 0, &mutated)
+			}
 			errsBefore := srv.logs.errors
 			var rets []reflect.Value
 			desc := fmt.Sprintf("%s %v", m.name, mutated)
 			ok := cl.call(m.name, func() {
+				if m.bidi {
+					rets = m.fn.Call([]reflect.Value{bidi})
+					return
+				}
 				if m.stream == nil {
 					rets = m.fn.Call([]reflect.Value{reflect.ValueOf(ctxBg), req})
 					return
